@@ -28,6 +28,7 @@
 #include <sstream>
 #include <string>
 #include <sys/socket.h>
+#include <sys/epoll.h>
 #include <thread>
 #include <unistd.h>
 #include <vector>
@@ -86,6 +87,30 @@ long decideRecv(int f)
   return k;
 }
 } // namespace inj
+
+// the last epoll registration of every fd (EPOLL_CTL_ADD / MOD): does it ask for EPOLLOUT?
+namespace inj
+{
+std::mutex em;
+std::map<int, std::uint32_t> lastEvents;
+bool armed(int f)
+{
+  std::lock_guard<std::mutex> g(em);
+  auto it = lastEvents.find(f);
+  return it != lastEvents.end() && (it->second & EPOLLOUT);
+}
+} // namespace inj
+extern "C" int epoll_ctl(int epfd, int op, int fd, struct epoll_event *ev)
+{
+  using Fn = int (*)(int, int, int, struct epoll_event *);
+  static Fn real = reinterpret_cast<Fn>(dlsym(RTLD_NEXT, "epoll_ctl"));
+  {
+    std::lock_guard<std::mutex> g(inj::em);
+    if (op == EPOLL_CTL_DEL) inj::lastEvents.erase(fd);
+    else if (ev) inj::lastEvents[fd] = ev->events;
+  }
+  return real(epfd, op, fd, ev);
+}
 
 extern "C" ssize_t send(int fd, const void *buf, size_t n, int flags)
 {
@@ -325,7 +350,7 @@ static std::string runCase(const std::string &cfgs, const std::vector<std::strin
   {
     for (int i = 0; i < ms * 4 && !pred(); ++i) std::this_thread::sleep_for(std::chrono::microseconds(250));
   };
-  std::string out;
+  std::string out, armedFlags;
   for (auto &op : ops)
   {
     auto p = split(op, ':');
@@ -412,6 +437,14 @@ static std::string runCase(const std::string &cfgs, const std::vector<std::strin
     }
     settle();
     std::string r = collect();
+    // the EPOLLOUT bit of the session's last epoll registration, after the operation has settled
+    {
+      char flag = '-';
+      std::shared_lock<std::shared_mutex> rl(tx._sessionRwMutex);
+      auto it = tx._sessions.find(C.testSid);
+      if (it != tx._sessions.end() && !it->second->closed) flag = inj::armed(it->second->fd) ? '1' : '0';
+      armedFlags.push_back(flag);
+    }
     // merge adjacent data callbacks: only the byte stream matters
     out += (out.empty() ? "" : " | ") + r;
     if (timedOut) { out += " | TIMEOUT"; break; }
@@ -426,7 +459,7 @@ static std::string runCase(const std::string &cfgs, const std::vector<std::strin
       drainPeer();
     }
   }
-  out += " || W" + digest(peerTotal) + " D" + digest(dataTotal);
+  out += " || W" + digest(peerTotal) + " D" + digest(dataTotal) + " E" + armedFlags;
   { std::lock_guard<std::mutex> g(inj::m); inj::active = false; inj::fd = -1; }
   tx.stop();
   if (peerOpen) ::close(peer);
